@@ -39,6 +39,7 @@ RULE = (
     "critic value vs every env subset/order and agent order of the dict. non-trivial = at least two observations with "
     "different reference rows (outputs differing by > 1e-3 for the consequence families) were compared; distinct = "
     "distinct case descriptions"
+    " Added: Dict observations presented with their members in reversed / rotated key order (dict and TensorDict) in the consequence family, a Dict space with two image members, signed-integer image spaces whose range overflows their dtype, dark / binary frames (30 % of the image samples)"
 )
 ASSUMPTIONS = [
     "batch dimensions are inferred from the rank only, as the statement's input list implies: rank(space) = one "
